@@ -18,7 +18,7 @@ func init() {
 	run.Register(&run.Property{
 		ID:    "C12",
 		Title: "Envelopes are the tightest boxes; envelope algebra matches interval arithmetic",
-		Rule: "two workloads: (1) generated valid geometries of every type x coordinate type with empty members (D-small/D-large/D-gp): Envelope() against min/max over DumpCoordinates, invariances, member joins, Union join; " +
+		Rule: "[added in rounds 9-11: invariance also under independent Z/M at every control point] two workloads: (1) generated valid geometries of every type x coordinate type with empty members (D-small/D-large/D-gp): Envelope() against min/max over DumpCoordinates, invariances, member joins, Union join; " +
 			"(2) the exhaustive lattice of envelopes with ordinates in {0,1,2,3,5,8} plus the empty envelope (442 envelopes, all ordered pairs, sampled triples): every exported Envelope method against its closed-interval definition. " +
 			"non-trivial = geometry with >= 2 control points, or an envelope pair; distinct by WKB / by the envelope tuple",
 		Assumptions:      []string{"lattice ordinates are small integers so every expected value is exact in float64", "geometries are valid (a polygon's envelope is documented from its exterior ring)"},
